@@ -850,3 +850,77 @@ class RuleAlias:
 
     def undecide(self, rule, instance, why):
         if self._keep(rule, instance): self._chk.undecide(self._new, f'[{rule}] {instance}', why)
+
+
+
+# ------------------------------------------------------------------------------------------------ intermediates that leave the range of doubles although the result is in it
+def unrepresentable_intermediates(node, env):
+    """Evaluates every sub-expression of an extracted expression in extended-range arithmetic (mpmath: 60 digits, unbounded exponent) at the given atom values.  When the value
+    of the whole expression is an ordinary double (zero, or between the smallest normal and the largest finite double), every product, quotient, power and exponential it is built
+    from must be one too: an intermediate beyond 1.8e308 is computed as inf (and inf * 0 as NaN), one below 2.2e-308 loses its digits.  -> [(sub-expression text, value, what)]."""
+    import mpmath as mp
+    mp.mp.dps = 60
+    DMAX = mp.mpf('1.7976931348623157e308'); DMIN = mp.mpf('2.2250738585072014e-308')
+    memo = {}
+
+    def ev(n):
+        stack = [n]
+        while stack:
+            x = stack[-1]
+            if x.uid in memo: stack.pop(); continue
+            pend = [a for a in x.args if a.uid not in memo]
+            if pend: stack.extend(pend); continue
+            stack.pop()
+            memo[x.uid] = one(x)
+        return memo[n.uid]
+
+    def one(x):
+        a = [memo[c.uid] for c in x.args]
+        if x.op == 'const': return mp.mpf(x.val.numerator) / mp.mpf(x.val.denominator) if hasattr(x.val, 'numerator') else mp.mpmathify(x.val)
+        if x.op == 'I': return mp.mpc(0, 1)
+        if x.op == 'atom':
+            if x.val[0] == 'pi': return mp.pi
+            if x.val[0] not in env: raise AnalysisError(f'no value for the atom {x.val[0]}')
+            return mp.mpmathify(env[x.val[0]])
+        if x.op == 'add': return mp.fsum(a)
+        if x.op == 'mul': return mp.fprod(a)
+        if x.op == 'div': return a[0] / a[1]
+        if x.op == 'powi': return a[0] ** x.val
+        if x.op == 'pow': return a[0] ** a[1]
+        if x.op == 'fn':
+            f = {'exp': mp.exp, 'log': mp.log, 'sqrt': mp.sqrt, 'abs': abs, 'sin': mp.sin, 'cos': mp.cos, 'tan': mp.tan, 'real': mp.re, 'imag': mp.im, 'cbrt': mp.cbrt, 'sign': mp.sign}.get(x.val)
+            if f is None: raise AnalysisError(f'extended-range evaluation: function {x.val} is not modelled')
+            return f(a[0])
+        if x.op == 'cmp':
+            d_ = mp.re(a[0] - a[1])
+            return mp.mpf(1 if {'<': d_ < 0, '<=': d_ <= 0, '>': d_ > 0, '>=': d_ >= 0, '==': a[0] == a[1], '!=': a[0] != a[1]}[x.val] else 0)
+        raise AnalysisError(f'extended-range evaluation: node {x.op} is not modelled')
+    total = ev(node)
+    at = abs(total)
+    if not (at == 0 or DMIN <= at <= DMAX):
+        return []                      # the result itself is outside the doubles: nothing an implementation could do about it
+    out = []; seen = set()
+
+    def walk(n):
+        # a product / quotient / sum whose own value is an ordinary double, but one of whose operands is not: the operand is computed as inf or loses its digits and the
+        # ordinary value is not what comes out.  (An operand that vanishes inside a sum of ordinary size is harmless: a fully decayed isotope contributes nothing.)
+        stack = [n]; vis = set()
+        while stack:
+            x = stack.pop()
+            if x.uid in vis: continue
+            vis.add(x.uid)
+            v = abs(memo[x.uid])
+            ordinary = v == 0 or DMIN <= v <= DMAX
+            if ordinary and x.op in ('mul', 'div', 'add', 'powi', 'pow'):
+                for a_ in x.args:
+                    va = abs(memo[a_.uid])
+                    what = None
+                    if va > DMAX: what = 'overflows (beyond 1.8e308: computed as inf)'
+                    elif 0 < va < DMIN and x.op in ('mul', 'div') and v >= DMIN: what = 'is below the smallest normal double (2.2e-308: its digits are lost or it is flushed to zero) although the product it enters is of ordinary size'
+                    if what:
+                        t = X.show(a_)[:70]
+                        if t not in seen:
+                            seen.add(t); out.append((t, mp.nstr(va, 5), what))
+            stack.extend(x.args)
+    walk(node)
+    return out
